@@ -49,6 +49,8 @@ for d in sorted(glob.glob(os.path.join(V, 'equiv', '*'))):
         etot += 1
         ebad += v['exit'] != 0
 equiv += '\n\n%d check runs on %d behaviour-preserving changes; %d with a non-zero exit code in the last recorded run.' % (etot, len(glob.glob(os.path.join(V, 'equiv', '*'))), ebad)
+cost = subprocess.run([sys.executable, os.path.join(V, 'tools', 'cost_table.py')], capture_output=True, text=True).stdout.strip()
+block('COST_TABLE', cost)
 block('SEEDED_TABLE', seeded)
 block('SEEDED_SUMMARY', summ)
 block('EQUIV_TABLE', equiv)
